@@ -261,7 +261,24 @@ class OpGen:
             return self.maxdepth
         return min(self.maxdepth, 7)
 
+    def _catalog_twin(self, ns, parent):
+        """The identifier the boot catalog has in namespace ns, if it is free in `parent` (an ordinary file that is called
+        like the catalog but lives elsewhere must stay an ordinary file)."""
+        m = self.m
+        if not m.eltorito or self.ra.random() > 0.12:
+            return None
+        for p, n in m.iter_ns(ns):
+            if n.kind == 'file' and n.blob == 'cat':
+                cp, nm = M.split(p)
+                if cp != parent and M._valid_new(m, ns, M.join(parent, nm)):
+                    return nm
+        return None
+
     def _new_iso_name(self, parent, isdir, long_ok=True):
+        if not isdir:
+            twin = self._catalog_twin('iso', parent)
+            if twin is not None:
+                return twin
         for _ in range(20):
             nm = self.names.iso_dir() if isdir else self.names.iso_file(long_ok)
             pnode = self.m.get('iso', parent)
@@ -293,6 +310,9 @@ class OpGen:
 
     def _new_uni_name(self, ns, parent, maxbytes):
         pnode = self.m.get(ns, parent)
+        twin = self._catalog_twin(ns, parent)
+        if twin is not None and twin not in pnode.children:
+            return twin
         for _ in range(20):
             nm = self.names.uni_name(maxbytes)
             if nm not in pnode.children:
@@ -752,7 +772,8 @@ class OpGen:
     def g_restart(self):
         # 'reuse': close() and open the written image with the *same* PyCdlib object (documented as allowed)
         if self.ra.random() < 0.4:
-            return {'op': 'restart', 'reuse': True}
+            # half of them after the object has seen (and been asked about every name of) a different image
+            return {'op': 'restart', 'reuse': self.ra.choice((True, 'decoy'))}
         return {'op': 'restart'}
 
     def g_re_add(self):
